@@ -183,6 +183,15 @@ def _target_isinstance(obj, cls):
 sym.ISINSTANCE_HOOKS.insert(0, _target_isinstance)
 
 
+def tol_band(kind, *units):
+    """SI width within which the library's cross-unit comparisons (absolute 1e-12 in one operand's unit) may
+    decide either way: the window clauses are stated outside it, the same-unit clauses are exact"""
+    tot = 0
+    for u in units:
+        tot = L.add(tot, AU.fac(kind, u))
+    return L.mul(2 * AU.TOL, tot)
+
+
 def job_timer():
     def body(c, O):
         import gearpy.sensors.timer as TM
@@ -205,8 +214,7 @@ def job_timer():
             O.prove("Timer:active-iff-start<=t<=start+duration", act == inside, props=("C15",))
             return
         # outside the library's tolerance band (the comparisons convert across units with the absolute tolerance)
-        fs, fn = AU.fac("Time", start.unit), AU.fac("Time", now.unit)
-        band = L.mul(AU.TOL, L.add(fs, fn))
+        band = tol_band("Time", start.unit, now.unit, dur.unit)
         clear_in = L.And(L.le(L.add(S, band), T), L.le(L.add(T, band), L.add(S, D)))
         clear_out = L.Or(L.lt(L.add(T, band), S), L.gt(T, L.add(L.add(S, D), band)))
         O.prove("Timer:active-when-start<=t<=start+duration(beyond-tolerance)", L.Implies(clear_in, act), props=("C15",))
@@ -241,8 +249,7 @@ def job_constant_pwm():
         applicable = r is not None
         if not c.concrete:
             same = L.And(AU.same_unit(start.unit, now.unit), AU.same_unit(now.unit, dur.unit))
-            fs, fn = AU.fac("Time", start.unit), AU.fac("Time", now.unit)
-            band = L.mul(AU.TOL, L.add(fs, fn))
+            band = tol_band("Time", start.unit, now.unit, dur.unit)
             inside = L.And(L.le(S, T), L.le(T, L.add(S, D)))
             clear_in = L.And(L.le(L.add(S, band), T), L.le(L.add(T, band), L.add(S, D)))
             clear_out = L.Or(L.lt(L.add(T, band), S), L.gt(T, L.add(L.add(S, D), band)))
@@ -336,11 +343,13 @@ def job_reach(n):
         O.cover("returns")
         if r is not None:
             O.cover("applicable")
-            O.prove("Reach:proposes-only-once-theta>=theta_s(beyond-tolerance)", TH >= ts - AU.TOL * 10, props=("C15",))
+            band = tol_band("AngularPosition", pos.unit, target.unit, brake.unit, "rad")
+            O.prove("Reach:proposes-only-once-theta>=theta_s(beyond-tolerance)", TH >= ts - band, props=("C15",))
             O.prove("Reach:value=1-(theta-theta_s)/theta_b", L.eq(L.mul(L.sub(1, r), TB), TH - ts), props=("C15",))
         else:
             O.cover("not-applicable")
-            O.prove("Reach:silent-only-while-theta<theta_s(beyond-tolerance)", TH <= ts + AU.TOL * 10, props=("C15",))
+            band = tol_band("AngularPosition", pos.unit, target.unit, brake.unit, "rad")
+            O.prove("Reach:silent-only-while-theta<theta_s(beyond-tolerance)", TH <= ts + band, props=("C15",))
         O.prove("Reach:modifies-nothing", not st.changed_since(old), props=("C15", "C14"))
     return Job(f"control.ReachAngularPosition.apply[n={n}]", body, ("C15", "C14"),
                functions=["gearpy.motor_control.rules.reach_angular_position.ReachAngularPosition.apply",
@@ -384,31 +393,149 @@ def job_start_limit_current():
         TH, TT = pos.si(), target.si()
         if r is None:
             O.cover("not-applicable")
-            O.prove("SLC:silent-only-while-theta>target(beyond-tolerance)", TH >= TT - AU.TOL * 10, props=("C15",))
+            O.prove("SLC:silent-only-while-theta>target(beyond-tolerance)",
+                    TH >= TT - tol_band("AngularPosition", pos.unit, target.unit), props=("C15",))
             return
         O.cover("applicable")
-        O.prove("SLC:proposes-only-while-theta<=target(beyond-tolerance)", TH <= TT + AU.TOL * 10, props=("C15",))
+        O.prove("SLC:proposes-only-while-theta<=target(beyond-tolerance)",
+                TH <= TT + tol_band("AngularPosition", pos.unit, target.unit), props=("C15",))
         D = sym.term_of(r)
         s = spd.si() / w0.si()
         e = ilim.si() / im.si()
         a = i0.si() / im.si()
-        O.prove("SLC:value-is-a-root-of-the-current-law-quadratic", D * D - (s + e) * D + a * s == 0, props=("C15",))
-        O.prove("SLC:value-is-the-larger-root", 2 * D >= s + e, props=("C15",))
+        real_root = (s + e) * (s + e) - 4 * a * s >= 0        # discriminant; its sign is obligation sqrt-argument-nonnegative
+        O.prove("SLC:value-is-a-root-of-the-current-law-quadratic", z3.Implies(real_root, D * D - (s + e) * D + a * s == 0), props=("C15",))
+        O.prove("SLC:value-is-the-larger-root", z3.Implies(real_root, 2 * D >= s + e), props=("C15",))
         # cross-module lemma: at this duty cycle (outside the dead zone, not clipped) the motor's own current law
         # yields exactly the limit current at the present speed
         W, W0, TM, I0, IM = spd.si(), w0.si(), Tm.si(), i0.si(), im.si()
         T_ = CM.cases_term(CM.spec_torque(D, W, W0, TM, I0, IM))
         I_ = CM.cases_term(CM.spec_current(D, T_, TM, I0, IM))
         O.prove("SLC:motor-current-law-at-the-proposed-duty-cycle=limit-current",
-                z3.Implies(z3.And(D > a, D <= 1), I_ == ilim.si()), props=("C15",))
+                z3.Implies(z3.And(real_root, D > a, D <= 1), I_ == ilim.si()), props=("C15",))
     return Job("control.StartLimitCurrent.apply", body, ("C15", "C14"),
                functions=["gearpy.motor_control.rules.start_limit_current.StartLimitCurrent.apply",
                           "gearpy.sensors.tachometer.Tachometer.get_value"],
                expect_covers=("applicable", "not-applicable"), meta=dict(family="rule"))
 
 
+
+def job_start_proportional(n, load_recorded):
+    def body(c, O):
+        if c.concrete:
+            return
+        import gearpy.motor_control.rules.start_proportional_to_angular_position as SP
+        import gearpy.sensors.absolute_rotary_encoder as ENC
+        env = make_chain(c, n)
+        st = env.state
+        c.assume(st["ecc"])                      # constructor requirement: the motor can compute its current
+        pos = H.mkq(c, "AngularPosition", "theta")
+        target = H.mkq(c, "AngularPosition", "theta_target")
+        mult = c.real("multiplier")
+        given = c.real("pwm_min_given")
+        c.assume(z3.And(mult.term > 1, given.term > 0, target.si() != 0))
+        enc = object.__new__(ENC.AbsoluteRotaryEncoder)
+        enc._AbsoluteRotaryEncoder__target = Target(angular_position=pos)
+        rule = object.__new__(SP.StartProportionalToAngularPosition)
+        P = "_StartProportionalToAngularPosition__"
+        rule.__dict__[P + "encoder"] = enc
+        rule.__dict__[P + "powertrain"] = AM.AbsPowertrain(env)
+        rule.__dict__[P + "target_angular_position"] = target
+        rule.__dict__[P + "pwm_min_multiplier"] = mult
+        rule.__dict__[P + "pwm_min"] = given
+        for j in range(1, n):
+            c.assume(z3.Select(st["eff"], j) > 0)
+        c.assume(z3.And(z3.Not(z3.Select(st["Tl_none"], 0)), env.fac("Torque", z3.Select(st["Tl_unit"], 0)) > 0))
+        c.assume((z3.Select(st["hlen_Tl"], 0) > 0) == load_recorded)
+        old = st.snapshot()
+        stt, r = H.call(rule.apply)
+        if stt == "raise":
+            O.fail("StartProportional.apply:no-exception", props=("C15",), note=repr(r))
+            return
+        O.cover("returns")
+        TH, TT = pos.si(), target.si()
+        first = env.ghost.get("first_Tl", {}).get("0")
+        Tl = first.si() if (load_recorded and first is not None) else env.si("Tl", 0)
+        m = env.motor
+        comp = 1 / eta(env, n) * (Tl / m["Tm"].si()) * ((m["im"].si() - m["i0"].si()) / m["im"].si()) + m["i0"].si() / m["im"].si()
+        Dm = z3.If(mult.term * comp != 0, mult.term * comp, given.term)
+        band = tol_band("AngularPosition", pos.unit, target.unit)
+        if r is None:
+            O.cover("not-applicable")
+            O.prove("SP:silent-only-while-theta>target(beyond-tolerance)", TH >= TT - band, props=("C15",))
+        else:
+            O.cover("applicable")
+            O.prove("SP:proposes-only-while-theta<=target(beyond-tolerance)", TH <= TT + band, props=("C15",))
+            O.prove("SP:value=linear-ramp-from-minimum-duty-cycle-to-1",
+                    L.eq(L.mul(sym.term_of(r) - Dm, TT), (1 - Dm) * TH), props=("C15",))
+        O.prove("SP:modifies-nothing", not st.changed_since(old), props=("C15", "C14"))
+    tag = "load-recorded" if load_recorded else "no-history"
+    return Job(f"control.StartProportionalToAngularPosition.apply[n={n},{tag}]", body, ("C15", "C14"),
+               functions=["gearpy.motor_control.rules.start_proportional_to_angular_position.StartProportionalToAngularPosition.apply",
+                          "gearpy.motor_control.rules.utils._compute_pwm_min"],
+               expect_covers=("applicable", "not-applicable"), meta=dict(family="rule", n=n))
+
+
+# =====================================================================================================
+# C16 (L1): sensors, operators, StopCondition.check_condition
+# =====================================================================================================
+
+OPS = {"GreaterThan": "gt", "GreaterThanOrEqualTo": "ge", "EqualTo": "eq", "LessThan": "lt", "LessThanOrEqualTo": "le"}
+SENSORS = {"AbsoluteRotaryEncoder": ("gearpy.sensors.absolute_rotary_encoder", "angular_position", "AngularPosition"),
+           "Tachometer": ("gearpy.sensors.tachometer", "angular_speed", "AngularSpeed"),
+           "Amperometer": ("gearpy.sensors.amperometer", "electric_current", "Current")}
+
+
+def job_stop(sensor, opname):
+    modname, attr, kind = SENSORS[sensor]
+
+    def body(c, O):
+        import importlib
+        import gearpy.utils.stop_condition.stop_condition as SC
+        import gearpy.utils.stop_condition.operator as OP
+        SM = importlib.import_module(modname)
+        reading = H.mkq(c, kind, "reading")
+        thr = H.mkq(c, kind, "threshold")
+        tgt = Target(**{attr: reading})
+        sens = object.__new__(getattr(SM, sensor))
+        sens.__dict__[f"_{sensor}__target"] = tgt
+        sc = object.__new__(SC.StopCondition)
+        sc._StopCondition__sensor = sens
+        sc._StopCondition__threshold = thr
+        sc._StopCondition__operator = getattr(OP, opname)()
+        st, r = H.call(sens.get_value)
+        O.prove("sensor:get_value-is-the-live-attribute-object", st == "ok" and r is reading, props=("C16", "C15"))
+        st, r = H.call(sc.check_condition)
+        if st == "raise":
+            O.fail("check_condition:no-exception", props=("C16",), note=repr(r))
+            return
+        O.cover("returns")
+        t = L.truth(r)
+        R_, T_ = H.SI(reading), H.SI(thr)
+        op = OPS[opname]
+        if c.concrete:
+            exact = {"gt": R_ > T_, "ge": R_ >= T_, "eq": R_ == T_, "lt": R_ < T_, "le": R_ <= T_}[op]
+            O.prove("check_condition:same-units=>operator(reading,threshold)-on-SI-magnitudes", bool(t) == exact, props=("C16",))
+            return
+        exact = {"gt": R_ > T_, "ge": R_ >= T_, "eq": R_ == T_, "lt": R_ < T_, "le": R_ <= T_}[op]
+        band = tol_band(kind, reading.unit, thr.unit)
+        far = z3.Or(R_ - T_ > band, T_ - R_ > band)
+        O.prove("check_condition:operator(reading,threshold)-on-SI-magnitudes(beyond-tolerance)",
+                z3.Implies(far, L.Iff(t, exact)), props=("C16", "C07"))
+        O.prove("check_condition:same-units=>operator(reading,threshold)-on-SI-magnitudes",
+                z3.Implies(L._b(AU.same_unit(reading.unit, thr.unit)), L.Iff(t, exact)), props=("C16",))
+        O.prove("check_condition:reads-the-live-attribute-and-modifies-nothing",
+                tgt.__dict__[attr] is reading and sc._StopCondition__threshold is thr, props=("C16",))
+    return Job(f"control.StopCondition.check_condition[{sensor},{opname}]", body, ("C16", "C15", "C07"),
+               functions=["gearpy.utils.stop_condition.stop_condition.StopCondition.check_condition",
+                          f"gearpy.utils.stop_condition.operator.{opname}.__call__", f"{modname}.{sensor}.get_value"],
+               expect_covers=("returns",), meta=dict(family="stop", sensor=sensor, op=opname))
+
+
 def all_jobs(exact_tables=None):
     jobs = [job_apply_rules(m) for m in range(0, 7)]
     jobs += [job_add_rule(), job_timer(), job_constant_pwm(), job_start_limit_current()]
     jobs += [job_reach(n) for n in (2, 3, 4)]
+    jobs += [job_start_proportional(n, lr) for n in (2, 3) for lr in (False, True)]
+    jobs += [job_stop(sn, op) for sn in SENSORS for op in OPS]
     return jobs
